@@ -34,5 +34,6 @@ func TestVerifReplay(t *testing.T) {
 		"VerifC01Deep":             VerifC01Deep,
 		"VerifC01AnyStart":         VerifC01AnyStart,
 		"VerifC17AnyStart":         VerifC17AnyStart,
+		"VerifC01FrozenClaim":      VerifC01FrozenClaim,
 	})
 }
